@@ -1,14 +1,34 @@
 package main
 
 import (
+	"database/sql"
+	"errors"
+	"fmt"
 	"sync"
 
 	"github.com/transparency-dev/witness/internal/persistence"
+	"google.golang.org/grpc/codes"
+	"google.golang.org/grpc/status"
 )
+
+// readErrors are the non-NotFound errors a failing read of the latest checkpoint is given, in rotation:
+// none of them affirms that nothing is stored.
+var readErrors = []error{
+	errInjected,
+	status.Error(codes.Unavailable, "verif: storage unavailable"),
+	status.Error(codes.DeadlineExceeded, "verif: storage timeout"),
+	status.Error(codes.Internal, "verif: storage internal error"),
+	status.Error(codes.Unknown, "verif: unknown storage error"),
+	fmt.Errorf("verif: wrapped: %w", sql.ErrConnDone),
+	errors.New("verif: no rows could be read because the disk is on fire"),
+	status.Error(codes.Aborted, "verif: aborted"),
+	status.Error(codes.FailedPrecondition, "verif: failed precondition"),
+}
 
 // faultLSP wraps a LogStatePersistence and fails the n-th call of a kind while armed (C07, interface level).
 // Failures happen BEFORE the inner call (nothing is applied), except Close, which releases and then reports an error.
 type faultLSP struct {
+	nread int
 	inner persistence.LogStatePersistence
 	mu    sync.Mutex
 	fail  map[string]int
@@ -84,7 +104,7 @@ type faultRead struct {
 
 func (r *faultRead) GetLatest() ([]byte, error) {
 	if r.f.hit("ReadGetLatest") {
-		return nil, errInjected
+		return nil, r.f.readErr()
 	}
 	return r.inner.GetLatest()
 }
@@ -94,9 +114,16 @@ type faultWrite struct {
 	f     *faultLSP
 }
 
+func (f *faultLSP) readErr() error {
+	f.mu.Lock()
+	defer f.mu.Unlock()
+	f.nread++
+	return readErrors[f.nread%len(readErrors)]
+}
+
 func (w *faultWrite) GetLatest() ([]byte, error) {
 	if w.f.hit("GetLatest") {
-		return nil, errInjected
+		return nil, w.f.readErr()
 	}
 	return w.inner.GetLatest()
 }
